@@ -36,16 +36,24 @@ def wrapper_callee(an: Analysis) -> Callee:
     return Callee(nested[0], TASK)
 
 
-def child_finished_flag(event):
+def child_finished_flag(event, path=None):
     """True / False / None: the ``failed`` argument of a ``__child_finished__`` call"""
     node = event.node
     if not isinstance(node, ast.Call):
         return None
+    value = None
     for kw in node.keywords:
-        if kw.arg == 'failed' and isinstance(kw.value, ast.Constant):
-            return bool(kw.value.value)
-    if len(node.args) >= 2 and isinstance(node.args[1], ast.Constant):
-        return bool(node.args[1].value)
+        if kw.arg == 'failed':
+            value = kw.value
+    if value is None and len(node.args) >= 2:
+        value = node.args[1]
+    if value is None:
+        return None
+    if not isinstance(value, ast.Constant) and path is not None:
+        # a helper parameter: follow it to the caller's argument
+        value = rules.value_expr(path, rules.event_index(path, event), value)
+    if isinstance(value, ast.Constant):
+        return bool(value.value)
     return None
 
 
@@ -76,12 +84,10 @@ def not_started_predicates(an: Analysis):
     for name in ('status', '__close__', 'cancel'):
         fn = an.method(TASK, name)
         for node in ast.walk(fn.node):
-            if not isinstance(node, ast.If):
-                continue
-            text = ast.unparse(node.test)
-            if '__runner__' not in text:
-                continue
-            result.append((fn, node.test, classify_started_test(node.test)))
+            # wherever the runner's state is compared: if-tests, conditional expressions
+            # or a local that holds the outcome
+            if isinstance(node, ast.Compare) and '__runner__' in ast.unparse(node):
+                result.append((fn, node, classify_started_test(node)))
     return result
 
 
@@ -120,10 +126,13 @@ def check_typestate(check, an: Analysis, rule='typestate'):
             raise AnalysisError('unrecognised not-started test %s at %s' % (
                 ast.unparse(test), where))
     names = {fn.name for fn, _t, _f in preds}
-    check.instance(rule, 'Task:not-started-tests-present', {'status', '__close__'} <= names,
+    cancel_uses_status = 'self.status' in ast.unparse(an.method(TASK, 'cancel').node)
+    ok = '__close__' in names and ('cancel' in names or
+                                   (cancel_uses_status and 'status' in names))
+    check.instance(rule, 'Task:not-started-tests-present', ok,
                    where_fn(an.method(TASK, 'status')),
-                   'Task.status and Task.__close__ distinguish not-yet-started tasks: %s'
-                   % sorted(names))
+                   'closing and cancelling distinguish not-yet-started tasks (state tests '
+                   'in %s)' % sorted(names))
 
 
 # ------------------------------------------------------ forced-close discipline
